@@ -129,6 +129,35 @@ func runWallet(tier string, seed int64, summaryPath, outPath string) {
 				rng.Read(wk)
 				check("wrongkey", file, hex.EncodeToString(wk), ws, map[string]any{"wrong_key_size": ws, "keysize": ks})
 			}
+			// wrong keys DERIVED from the right one: zero-padded / truncated / repeated to every other valid AES key size,
+			// a trailing or leading zero byte appended, the key reversed (related-key confusions of a key-normalising wrapper)
+			derived := map[string][]byte{}
+			for _, sz := range []int{16, 24, 32} {
+				if sz > ks {
+					derived[fmt.Sprintf("zero_padded_to_%d", sz)] = append(append([]byte{}, key...), make([]byte, sz-ks)...)
+					rep := append([]byte{}, key...)
+					for len(rep) < sz {
+						rep = append(rep, key...)
+					}
+					derived[fmt.Sprintf("repeated_to_%d", sz)] = rep[:sz]
+					derived[fmt.Sprintf("zero_prefixed_to_%d", sz)] = append(make([]byte, sz-ks), key...)
+				}
+				if sz < ks {
+					derived[fmt.Sprintf("truncated_to_%d", sz)] = append([]byte{}, key[:sz]...)
+					derived[fmt.Sprintf("tail_%d", sz)] = append([]byte{}, key[ks-sz:]...)
+				}
+			}
+			rev := make([]byte, ks)
+			for i := range key {
+				rev[ks-1-i] = key[i]
+			}
+			derived["reversed"] = rev
+			for name, dk := range derived {
+				if bytes.Equal(dk, key) {
+					continue
+				}
+				check("wrongkey", file, hex.EncodeToString(dk), len(dk), map[string]any{"derived_key": name, "keysize": ks})
+			}
 			// one flipped key bit
 			fk := append([]byte{}, key...)
 			fk[rng.Intn(len(fk))] ^= 1
@@ -136,7 +165,7 @@ func runWallet(tier string, seed int64, summaryPath, outPath string) {
 		}
 	}
 	sum.Exhaustive = "all truncation lengths and all byte positions of every generated file"
-	sum.Samples = []string{"truncated to 0..len-1 bytes; byte i xor {1 bit, 0xff, random}; keys of size 0,1,15,16,17,24,31,32,33,64; +1 byte"}
+	sum.Samples = []string{"truncated to 0..len-1 bytes; byte i xor {1 bit, 0xff, random}; keys of size 0,1,15,16,17,24,31,32,33,64, keys derived from the right one (zero-padded/prefixed, repeated, truncated, tail, reversed); +1 byte"}
 	// Coq cases
 	var b bytes.Buffer
 	b.WriteString("From Coq Require Import List Arith Bool.\nFrom Verif Require Import WalletFile.\nImport ListNotations.\n")
